@@ -18,19 +18,26 @@ Main theorems (model A = Flatland/Path.lean, spec B = Flatland/Spec/C14.lean):
 * `C14_Full` / `C14_full_fails`  without `Canon` the statement is false of the code as it is
                       (KF-C14-a): `nosuch/..` strict.
 
-* `tokenize_print_names`  tokenizer ∘ printer on paths of name steps (absolute or relative, any
-                      spellable names, minimal or full escaping): escaped punctuation is a
-                      literal name character.
+* `tokenize_print`    **tokenizer ∘ printer for the whole concrete syntax** (`CPath`): leading/trailing
+                      slash, `..`/`.` anywhere, names with minimal or full escaping, `[n]` or `/n`,
+                      `[-n]`, `[a:b]`, `[a:b:c]` with omitted bounds, bracket steps attached with or
+                      without a slash: `tokenize (print p) = compile p` (canonicalised iff the path
+                      has `.`/`..`), for ints within `int()`'s digit limit (`StepFits`);
+* `find_print_denotes`  **end to end**: `find(print p, single, strict)` = spec B's `findSpec` of the
+                      AST, for every tree, start element, `single`, `strict`, on the Canon domain;
+* `tokenize_print_names`  the name fragment separately (escaped punctuation is a literal name
+                      character), also for names the bracket-free printer of C13 needs.
 
-Not proved here: `tokenize (print p) = compile p` for the whole concrete syntax (stated as
-`TokenizePrint_Full`): the bracket, `.` and `..` spellings are tied to the code by correspondence
-and by the exhaustive enumeration of short strings over the path alphabet only.
+Trusted, not proved: that `scan` is `_tokenize_re.findall` and `pyInt`/`pySlice` are Python's
+`int()`/slicing (pinned regex text, generated Unicode tables, correspondence on every run incl.
+the exhaustive enumeration of all strings of length <= 4/5 over the path alphabet).
 -/
 import Flatland.Path
 import Flatland.Spec.C14
 import Proofs.Lemmas.C14Work
 import Proofs.Lemmas.C14Slice
 import Proofs.Lemmas.C14Print
+import Proofs.Lemmas.C14Tok
 namespace Flatland.C14.Proofs
 open Flatland.Path Flatland.C14.Spec Flatland.Path.Lemmas
 
@@ -711,15 +718,53 @@ theorem C14_full_fails : ¬ C14_Full := by
 
 /-! ### tokenizer ∘ printer -/
 
-/-- the whole statement: every well-formed concrete path tokenizes to its compiled op list
-    (canonicalised exactly when it contains `.` or `..`).  Proved below for the name fragment;
-    the bracket/`.`/`..` spellings are tied to the code by correspondence and by the exhaustive
-    enumeration of short strings only. -/
-def TokenizePrint_Full : Prop :=
-  ∀ p : CPath, p.wf = true →
+/-- **tokenizer ∘ printer, whole concrete syntax**: every well-formed concrete path — leading and
+    trailing slash, `..`/`.` anywhere, names with minimal or full escaping, `[n]` or `/n`,
+    `[-n]`, `[a:b]`, `[a:b:c]` with any omitted bounds, bracket steps attached directly or with a
+    slash — whose integers stay within `int()`'s digit limit tokenizes to its compiled op list,
+    canonicalised exactly when it contains `.` or `..`. -/
+theorem tokenize_print (p : CPath) (hwf : p.wf = true) (hfit : ∀ c ∈ p.steps, StepFits c.step) :
     tokenize (print p) = .ok
       (if p.steps.any (fun c => c.step.isUp || c.step.isHere) then canonicalize (compile p.abstract)
-       else compile p.abstract)
+       else compile p.abstract) := by
+  have hall : ∀ c ∈ p.steps, CStepOK c := by
+    intro c hc
+    refine ⟨?_, hfit c hc⟩
+    simp only [CPath.wf, List.all_eq_true] at hwf
+    exact hwf c hc
+  rw [tokenize_print_aux p hall]
+  have : p.steps.all (fun c => notDot c.step) = !p.steps.any (fun c => c.step.isUp || c.step.isHere) := by
+    simp only [notDot]
+    induction p.steps with
+    | nil => rfl
+    | cons c r ih =>
+      rw [List.all_cons, List.any_cons, ih]
+      cases c.step.isUp <;> cases c.step.isHere <;> simp
+  rw [this]
+  cases p.steps.any (fun c => c.step.isUp || c.step.isHere) <;> rfl
+
+/-- **end to end**: `find` on the printed path = spec B's reading of the AST, on the Canon domain -/
+theorem find_print_denotes (root : Node) (start : Pos) (p : CPath) (single strict : Bool)
+    (hwf : p.wf = true) (hfit : ∀ c ∈ p.steps, StepFits c.step) (hc : Canon p.abstract = true) :
+    find root start (print p) single strict = findSpec p.abstract root start single strict := by
+  have hwf' : p.abstract.steps.all Step.wf = true := by
+    simp only [CPath.abstract, List.all_map]
+    simp only [CPath.wf, List.all_eq_true] at hwf ⊢
+    intro c hc'
+    have := hwf c hc'
+    simp only [CStep.wf, Bool.and_eq_true] at this
+    exact this.1
+  rw [find_denotes, tokenize_print p hwf hfit]
+  have hden : denOps root strict
+      (if p.steps.any (fun c => c.step.isUp || c.step.isHere) then canonicalize (compile p.abstract)
+        else compile p.abstract) start = denote p.abstract root start strict := by
+    split
+    · rw [canonicalize_sound _ _ _ hc, denOps_compile _ _ _ hwf']
+    · rw [denOps_compile _ _ _ hwf']
+  simp only [hden, findResOf, findSpec]
+  cases denote p.abstract root start strict with
+  | error e => cases single <;> rfl
+  | ok res => cases single <;> rfl
 
 /-- a name step written as a segment (not as `[n]`), for a name the grammar can spell -/
 def NameSeg (c : CStep) : Prop := ∃ s, c.step = .name s ∧ c.sp.bracket = false ∧ GoodName s = true
